@@ -17,6 +17,7 @@ derive-where is RENAMED to `dw` in the harness crate, every item carrying
 `#[derive_where(crate = dw)]` at a random position among its attributes: the
 `crate` option is then the only thing that makes the paths resolve (C14)."""
 import copy
+import re
 import json
 import os
 import random
@@ -28,7 +29,7 @@ import bharness
 import enumerate_items
 import generate
 import runner
-from items import Attr, Body, MList, MNameValue, MPathM, P, metas_body
+from items import Attr, Body, MList, MNameValue, MPathM, P, PA, metas_body
 
 VERIF = runner.VERIF
 EXEC = os.path.join(VERIF, 'exec')
@@ -104,8 +105,12 @@ def compile_ready(it):
     elif any(a.kind == 'repr' for a in it.attrs):
         return False
     src = it.rust()
-    if any(x in src for x in ('crate = "a::b"', 'crate = a', 'crate = b', 'zeroize_', 'crate = foo', 'crate = zeroize')):
-        return False          # paths that do not resolve in the harness crate: rustc's E0433 is not the macro's
+    if any(x in src for x in ('crate = "a::b', 'crate = a', 'crate = b', 'zeroize_', 'crate = foo', 'crate = zeroize',
+                              'crate = "foo', 'crate = "::derive_where::<')) or \
+            re.search(r'Zeroize(OnDrop)?\s*\(\s*crate = "?[:\w]*::<u8>', src):
+        # paths that do not resolve in the harness crate: rustc's E0433 is not the macro's; a zeroize crate path with
+        # generic arguments is accepted and then names nothing (`use a::<u8>::Zeroize;` is rustc's to refuse)
+        return False
     for v in it.variants:
         fn = [f.member.rust() for f in v.fields if not isinstance(f.member, int)]
         if len(set(fn)) != len(fn):
@@ -128,6 +133,12 @@ def decorate(rng, it):
         it.attrs.insert(rng.randrange(len(it.attrs) + 1), Attr('dw', metas_body([MNameValue('crate', rng.choice(['strbad', 'other']))])))
     elif r < 0.13:
         it.attrs.insert(rng.randrange(len(it.attrs) + 1), Attr('dw', metas_body([MNameValue('crate', 'path', P('::derive_where'))])))
+    elif r < 0.145:
+        # generic arguments in the crate path (second crate option, or instead of the valid one)
+        bad = Attr('dw', metas_body([MNameValue('crate', rng.choice(['path', 'str']), PA(rng.choice(['dw', 'dw::inner']), 1))]))
+        if rng.random() < 0.5:
+            it.attrs = [a for a in it.attrs if not (a.kind == 'dw' and a.body.notlist is None and 'crate = ' in a.body.rust_inner())]
+        it.attrs.insert(rng.randrange(len(it.attrs) + 1), bad)
     elif r < 0.16:
         it.attrs.insert(rng.randrange(len(it.attrs) + 1), Attr('dw', metas_body([rng.choice([MPathM('crate'), MList('crate', [MPathM('x')])])])))
     elif r < 0.19:
